@@ -398,7 +398,7 @@ func r36Readers(c *RuleCtx) {
 		c.add(statusOf(cl != broken), "reader/"+funcShortName(fn), c.fpos(fn), desc,
 			"the reader's idea of the record shape differs from the writers': every later posting of the chunk is decoded from the wrong offset", props, findings[fn])
 	}
-	c.add(statusOf(n >= 2), "reader/sites", "-", "functions consuming the freq/norm stream are found (pinned tree: readFreqNormHasLocs, skipFreqNormReadHasLocs)", fmt.Sprintf("found %d", n), props, nil)
+	c.add(statusOf(n >= 1), "reader/sites", "-", "functions consuming the freq/norm stream are found (pinned tree: readFreqNormHasLocs, skipFreqNormReadHasLocs)", fmt.Sprintf("found %d", n), props, nil)
 }
 
 // consumesSomewhere: fn consumes from the freq/norm stream itself or calls (two
